@@ -18,7 +18,8 @@ def plan(tier, seed):
     if tier == 'quick':
         api = [dict(n=3, m=2, labels='ints', schemes='all'), dict(n=4, m=1, labels='ints', schemes='six'),
                dict(n=4, m=2, labels='ints', schemes='two', per=40, configs='det'),
-               dict(n=3, m=2, labels=alt, schemes='two')]
+               dict(n=3, m=2, labels=alt, schemes='two'),
+               dict(n=3, m=2, labels='ints', schemes='one', configs='det', premutate=True, reuse=False)]
         ker = [dict(n=4, m=1, schemes='four'), dict(n=3, m=2, schemes='all'), dict(n=4, m=2, schemes='one_b', per=100)]
     else:
         api = [dict(n=4, m=2, labels='ints', schemes='all', per=40, configs='det'),
